@@ -136,6 +136,17 @@ theorem answered_true_is_durable {s : Blue.FsyncCore.St} (h : Blue.FsyncCore.Inv
     ∀ i ∈ inputs, i ≤ (Blue.FsyncCore.step s (.work inputs ok)).1.durable :=
   Blue.FsyncCore.answered_true_is_durable h inputs ok hans
 
+/-- the hypothesis "`batch` keeps the maximum" is needed: a core whose `batch` returns the last
+    watermark seen answers `true` to an append that no returned `fdatasync` covers (closed
+    counterexample: 10 bytes written, 5 durable, batch `{10, 0}`), where the real core syncs -/
+theorem batch_returns_seen_loses_durability :
+    ∃ (s : Blue.FsyncCore.St) (inputs : List Nat), Blue.FsyncCore.Inv s ∧ (∀ i ∈ inputs, i ≤ s.written)
+      ∧ (Blue.FsyncCore.stepSeen s (.work inputs true)).2 = some true
+      ∧ (∃ i ∈ inputs, (Blue.FsyncCore.stepSeen s (.work inputs true)).1.durable < i)
+      ∧ (Blue.FsyncCore.step s (.work inputs true)).2 = some true
+      ∧ (∀ i ∈ inputs, i ≤ (Blue.FsyncCore.step s (.work inputs true)).1.durable) :=
+  Blue.FsyncCore.batch_returns_seen_loses_durability
+
 /-- in every interleaving of `do_work` the core is handed the callers' inputs exactly once each,
     in link order: the file is `writeAll` of the appends in queue order -/
 theorem core_sees_inputs_once_in_order (out : Nat → Nat) (evs : List Blue.Wcq.Ev) :
@@ -236,6 +247,7 @@ end Blue.Props.C12
 #print axioms Blue.Props.C12.crash_prefix
 #print axioms Blue.Props.C12.fsync_invariant
 #print axioms Blue.Props.C12.answered_true_is_durable
+#print axioms Blue.Props.C12.batch_returns_seen_loses_durability
 #print axioms Blue.Props.C12.core_sees_inputs_once_in_order
 #print axioms Blue.Props.C12.own_result
 #print axioms Blue.Props.C12.core_sees_inputs_once_in_order_v
